@@ -180,6 +180,9 @@ def tile(r, valid=True, L=None):
         c = wf_cfg_for(k, r)
         if c.get("padding") and r.random() < 0.7: c["padding"] = 0
         return gen.encode(c)
+    if L is None and r.random() < 0.6:
+        t = bad_tile(r)
+        if t is not None: return t
     L = L or r.choice([4, 8, 12])
     pt = r.choice([200, 201, 202, 203, 204, 205, 206])
     x = r.random()
@@ -188,6 +191,32 @@ def tile(r, valid=True, L=None):
     if x < 0.7:   # too short for its type
         return bytes([0x80, 200]) + struct.pack(">H", L // 4 - 1) + bytes(L - 4)
     return bytes([0xa0, pt]) + struct.pack(">H", L // 4 - 1) + bytes(L - 4)   # padding 0
+
+
+SDES_BAD = [
+    "81ca0003 00000001 08040970 76760000",      # PRIV prefix longer than its item
+    "81ca0003 00000001 08030361 62000000",      # PRIV prefix = item length
+    "81ca0002 00000001 08000000",               # PRIV item without room for the prefix length
+    "81ca0002 00000001 01096162",               # item overruns the packet
+    "81ca0003 00000001 01016100 00000100",      # non-zero fill / truncated second chunk
+    "81ca0002 00000001 01026162",               # no terminator
+    "82ca0002 00000001 00000000",               # fewer chunks than announced (lenient) / ok
+    "a1ca0002 00000001 00000000",               # padding bit with zero count
+    "a1ca0002 00000001 00000009",               # padding count beyond the packet
+]
+
+
+def bad_tile(r):
+    """a tile whose own length field is right (so the datagram still tiles) but which the generic
+    parser refuses, for as many different reasons as possible"""
+    x = r.random()
+    if x < 0.3:
+        return bytes.fromhex(r.choice(SDES_BAD).replace(" ", ""))
+    k = r.choice(["rr", "bye", "app", "sdes", "tfb", "pfb", "sr"])
+    c = wf_cfg_for(k, r)
+    p = gen.encode(c)
+    cands = [d for d in gen.damages(r, p, 40) if len(d) == len(p) and d[2:4] == p[2:4]]
+    return r.choice(cands) if cands else None
 
 
 def compound_stream(r, tier):
@@ -326,6 +355,19 @@ def big_inputs(r):
     out.append(P("compound", gen.hdr(201, 0, 8) + bytes(4) + gen.hdr(207, 0, 65540) + bytes(65536)))
     out.append(P("nack", bytes(65540)))
     out.append(P("app", bytes(70000)))
+    # padded packets beyond 64 KiB: the padding count sits at an offset that does not fit 16 bits
+    for kind, pt in (("app", 204), ("unknown", 207), ("packet", 204), ("packet", 242), ("pfb", 206), ("rr", 201), ("bye", 203)):
+        for L in (65540, 65544, 65552, 4 * r.randint(16386, 30000), 131072, 131076):
+            last = r.choice([0, 0, 4, 8, 85, 252, 255])
+            body = bytearray(r.getrandbits(8) | 1 for _ in range(L - 4))
+            if kind == "pfb": body[:8] = struct.pack(">II", 1, 2)
+            body[-1] = last
+            cnt = {"rr": 0, "bye": r.choice([0, 1, 31]), "pfb": r.choice([1, 3, 3])}.get(kind, r.getrandbits(5))
+            b = bytes([0xa0 | cnt, pt]) + struct.pack(">H", (L // 4 - 1) & 0xffff) + bytes(body)
+            if L // 4 - 1 > 0xffff: continue
+            out.append(P(kind, b))
+            if last and r.random() < 0.5:
+                out.append(P(kind, bytes([0x80 | cnt]) + b[1:]))
     return out
 
 
@@ -398,6 +440,8 @@ def boundary_cfgs(kind, r, tier):
             out.append({"k": "app", "ssrc": 1, "name": b"ab", "padding": 0, "subtype": st, "data": b""})
         for nl in range(0, 8):
             out.append({"k": "app", "ssrc": 1, "name": gen.r_ascii(r, nl), "padding": r.choice(pads_legal), "subtype": 0, "data": gen.r_bytes(r, 4)})
+        for nm in ("a\0bc", "\0abc", "ab\0c", "\0\0\0z", "\0", "a\0", "\0\0\0\0", "\x01\x02\x03\x04", "a\0b"):
+            out.append({"k": "app", "ssrc": 1, "name": nm.encode(), "padding": r.choice(pads_legal), "subtype": 0, "data": gen.r_bytes(r, 4)})
         for nm in ("é", "aé", "abé", "€", "a€", "\x7f\x7f\x7f\x7f", "abc\x80"):
             out.append({"k": "app", "ssrc": 1, "name": nm.encode(), "padding": 0, "subtype": 0, "data": b""})
         for dl in range(0, 70 if not full else 260):
